@@ -237,9 +237,13 @@ func argThrough(anchor *ssa.Function, v ssa.Value) ssa.Value {
 // arrive in one read, the second is lost (its caller times out) or the stream
 // loses frame alignment.
 func decoderPerLoop(ctx *core.Ctx, r *RT, rule string) {
-	isExec := func(c ssax.Call) bool { return c.Method != nil && c.Method.Name() == "Execute" }
+	// a frame-consuming step: the registry's Execute on the client side, the
+	// processor's Process on the server side (one framed request per call)
+	isExec := func(c ssax.Call) bool {
+		return c.Method != nil && (c.Method.Name() == "Execute" || (c.Method.Name() == "Process" && ssax.TypeNamed(c.Common.Value.Type(), "", "FProcessor")))
+	}
 	n := 0
-	for fn := range spawned(r) {
+	for _, fn := range r.Fns {
 		if !cycleReaches(fn, isExec) {
 			continue
 		}
@@ -257,7 +261,7 @@ func decoderPerLoop(ctx *core.Ctx, r *RT, rule string) {
 		}
 	}
 	// … and not less often: a decoder kept in a field survives the loop
-	for fn := range spawned(r) {
+	for _, fn := range r.Fns {
 		if !cycleReaches(fn, isExec) {
 			continue
 		}
